@@ -243,7 +243,7 @@ func (en *Engine) callFunction(st *State, f *Frame, x *ssa.Call, fn *ssa.Functio
 	if r, ok := en.intrinsic(st, f, x, fn, name, args, pos); ok {
 		return r
 	}
-	if fc, pc := en.contractFor(fn); fc != nil && !en.forceInline[name] && !en.inlineNames[fn.Name()] {
+	if fc, pc := en.contractFor(fn); fc != nil && !fc.CTOnly && !en.forceInline[name] && !en.inlineNames[fn.Name()] {
 		return en.applyContract(st, f, x, fn, fc, pc, args, pos)
 	}
 	if fn.Blocks == nil {
